@@ -104,6 +104,11 @@ type Kit struct {
 	Hooks *Hooks
 	Stats string
 	Slack time.Duration // how long a wait may last before the step is recorded as it is
+	// Headers, when set, gives the extra request headers of a peer's websocket upgrade (proxy headers,
+	// request ids, ...); Compress says whether the peer offers permessage-deflate. Correct code behaves
+	// the same whatever they are.
+	Headers  func(p *Peer) http.Header
+	Compress func(p *Peer) bool
 }
 
 func Start(opts lib.RelayOpts) *Kit {
@@ -167,8 +172,18 @@ func (k *Kit) Connect(p *Peer, path string, digest func(*Frame), rcvbuf int) {
 	p.code = ""
 	p.Path, p.Digest = path, digest
 	hdr := http.Header{}
+	if k.Headers != nil {
+		for name, vs := range k.Headers(p) {
+			for _, v := range vs {
+				hdr.Add(name, v)
+			}
+		}
+	}
 	hdr.Set("User-Agent", p.UA)
 	dialer := websocket.Dialer{HandshakeTimeout: 3 * time.Second}
+	if k.Compress != nil && k.Compress(p) {
+		dialer.EnableCompression = true
+	}
 	if rcvbuf > 0 {
 		dialer.NetDial = func(network, addr string) (net.Conn, error) {
 			d := net.Dialer{Timeout: 3 * time.Second, Control: func(_, _ string, c syscall.RawConn) error {
@@ -340,6 +355,55 @@ func (k *Kit) Abort(p *Peer) {
 	case <-p.readerDone:
 	case <-time.After(k.Slack):
 	}
+}
+
+// ProxyHeaders is a standing set of request headers as proxies and tracing front ends add them:
+// the same forwarded address, request id and trace id on SEVERAL connections, lists, ports,
+// malformed and oversized values. pick selects deterministically.
+func ProxyHeaders(pick uint64) http.Header {
+	h := http.Header{}
+	xff := []string{"10.0.0.7", "10.0.0.7", "10.0.0.7, 192.168.1.9", "203.0.113.5:4711", "[2001:db8::7]:443", "[2001:db8::7", "",
+		"2001:db8::7", strings.Repeat("10.1.2.3, ", 400) + "10.9.9.9"}
+	switch pick % 4 {
+	case 0: // nothing at all (a direct connection)
+		return h
+	case 1:
+		h.Set("X-Forwarded-For", "10.0.0.7") // many connections behind one NAT
+	default:
+		h.Set("X-Forwarded-For", xff[(pick/4)%uint64(len(xff))])
+	}
+	if pick%3 == 0 {
+		h.Set("X-Real-Ip", "10.0.0.7")
+		h.Set("Forwarded", "for=10.0.0.7;proto=https")
+	}
+	if pick%5 < 3 { // identical on every connection that has them
+		h.Set("X-Request-Id", "req-0001")
+		h.Set("X-Correlation-Id", "corr-0001")
+		h.Set("Traceparent", "00-4bf92f3577b34da6a3ce929d0e0e4736-00f067aa0ba902b7-01")
+	}
+	if pick%7 == 0 {
+		h.Set("X-Request-Start", []string{"t=0", "t=99999999999999", "garbage"}[(pick/7)%3])
+		h.Add("X-Forwarded-For", "10.0.0.8") // a repeated header
+	}
+	return h
+}
+
+// Partial makes the peer fail in the middle of a data message: it writes a frame header announcing
+// `announced` payload bytes (126..65535), only the first bytes given, and then resets the connection.
+func (k *Kit) Partial(p *Peer, mt int, announced int, first []byte) {
+	if p.Conn == nil {
+		return
+	}
+	raw := p.Conn.UnderlyingConn()
+	mask := [4]byte{0x11, 0x22, 0x33, 0x44}
+	b := []byte{0x80 | byte(mt), 0x80 | 126, byte(announced >> 8), byte(announced), mask[0], mask[1], mask[2], mask[3]}
+	for i, c := range first {
+		b = append(b, c^mask[i%4])
+	}
+	raw.SetWriteDeadline(time.Now().Add(2 * time.Second))
+	raw.Write(b)
+	time.Sleep(15 * time.Millisecond) // let the relay's reader take the part in before the reset overtakes it
+	k.Abort(p)
 }
 
 // Report is the part of a /status entry the harnesses read.
